@@ -205,9 +205,9 @@ func runWorker(bin string, j job, gomaxprocs int, extraEnv ...string) workerResu
 		f.Close()
 	}
 	os.Remove(j.Out)
+	res.stderr = eb.String()
 	if err != nil {
 		res.died = true
-		res.stderr = eb.String()
 		if j.Current != "" {
 			res.current, _ = os.ReadFile(j.Current)
 		}
